@@ -26,13 +26,25 @@ class StubComp:
 
 
 class StubAgent:
+    """light agent (no thread, no messaging) whose computations() is the REAL Agent.computations applied to its table"""
+
     def __init__(self, name, agent_def):
         self.name = name
         self.agent_def = agent_def
-        self._comps = []
+        self._computations = {}
+
+    @property
+    def _comps(self):
+        return list(self._computations.values())
+
+    @_comps.setter
+    def _comps(self, comps):
+        self._computations = {c.name: c for c in comps}
 
     def computations(self, include_technical=False):
-        return list(self._comps)
+        from pydcop.infrastructure.agents import Agent
+
+        return Agent.computations(self, include_technical)
 
 
 def gen_deployment(rng):
@@ -49,7 +61,9 @@ def gen_deployment(rng):
     comps = []
     for a in agents:
         for j in range(rng.randint(1, 2)):
-            comps.append({"name": "c_%s_%d" % (a, j), "agent": a, "footprint": rng.choice([1, 2, 3, 4, 5])})
+            # computation names are arbitrary identifiers (variables are often called A1, B2, x_3 ...)
+            prefix = rng.choice(["c", "c", "B", "A", "x"])
+            comps.append({"name": "%s_%s_%d" % (prefix, a, j), "agent": a, "footprint": rng.choice([1, 2, 3, 4, 5])})
     # connected neighbour graph over computations
     names = [c["name"] for c in comps]
     order = list(names)
@@ -136,7 +150,8 @@ class World:
         def accept(origin_agt, comp_def, footprint):
             k = w.dep["k"]
             agent = w.agents[a]
-            remaining = agent.agent_def.capacity - sum(c.footprint() for c in agent.computations())
+            # from the harness' own deployment description (not through agent.computations(), which is code under test)
+            remaining = w.dep["agent_defs"][a]["capacity"] - sum(c["footprint"] for c in w.dep["comps"] if c["agent"] == a)
             held = dict(rep.hosted_replicas)
             owners = sorted({o for o, f in held.values()})
             worst = 0
